@@ -2,16 +2,12 @@
 From Coq Require Import List ZArith QArith Bool Lia Arith.
 Import ListNotations.
 Require Import QV.common.Util QV.C09.Model QV.C09.Proofs QV.C09.Proofs2 QV.C09.Proofs3 QV.C09.Proofs4 QV.C09.Proofs5 QV.C09.Proofs6
-               QV.C09.Proofs7 QV.C09.Proofs8 QV.C09.ProofsR.
+               QV.C09.Proofs7 QV.C09.Proofs7x QV.C09.Proofs8 QV.C09.ProofsR.
 
-Definition simple_step (stp : option Z) : bool := match stp with None => true | Some z => (z =? 1)%Z end.
-
-(* the argument domain: extended slices (explicit step other than 1) are not covered by the proof; roll_constant_waveforms
-   requires minimal_waveform_quanta >= 1 (Python raises ZeroDivisionError / loops on negative factors otherwise; the model
-   does not follow it there) *)
+(* the argument domain: roll_constant_waveforms requires minimal_waveform_quanta >= 1 (Python raises ZeroDivisionError /
+   works with negative factors otherwise; the model does not follow the code there) *)
 Definition guard_C09_args (o : op) : bool :=
   match o with
-  | OSetSlice _ _ _ stp _ => simple_step stp
   | ORoll _ mq _ _ => (1 <=? mq)%Z
   | _ => true
   end.
@@ -24,11 +20,9 @@ Proof.
   destruct o; try discriminate; cbn in H.
   - eapply run_at_inv; eauto. intros x h' res Rx Hk Okr. cbv beta in Hk.
     eapply setitem_int_fresh_inv; [apply build_fresh|exact I|exact Rx|exact Hk|exact Okr].
-  - (* OSetSlice *)
-    assert (ST : step = None \/ step = Some 1%Z).
-    { cbn in PO. destruct step as [z|]; [right; apply Z.eqb_eq in PO; congruence|now left]. }
+  - (* OSetSlice, any step *)
     eapply run_at_inv; eauto. intros x h' res Rx Hk Okr. cbv beta in Hk.
-    eapply setslice_build_inv; eauto.
+    eapply setslice_build_any; eauto.
   - eapply run_at_inv; eauto. intros x h' res Rx Hk Okr. cbv beta in Hk. eapply unroll_inv; eauto.
   - eapply run_at_inv; eauto. intros x h' res Rx Hk Okr. cbv beta in Hk. eapply unroll_children_inv; eauto.
   - eapply run_at_inv; eauto. intros x h' res Rx Hk Okr. cbv beta in Hk. eapply split_inv; eauto.
